@@ -94,7 +94,7 @@ func getCode(err error) string {
 	if dcode := drpcerr.Code(err); dcode != 0 {
 		code = fmt.Sprintf("drpcerr(%d)", dcode)
 	}
-	for i := 0; i < 100; i++ {
+	for i := 0; i < 100 && err != nil; i++ {
 		if m := reflect.ValueOf(err).MethodByName("Code"); m.IsValid() {
 			if mt := m.Type(); mt.NumIn() == 0 && mt.NumOut() == 1 &&
 				mt.Out(0).Kind() == reflect.String {
